@@ -129,7 +129,9 @@ def unit_rel(args, prefix=(), max_depth=None):
         try:
             ctx = concepts.Context(objs, props, harness.sym_rows(cells))
             named = []
-            for include_unary in (True, False):
+            # every call is analysed, then the caller edits the list it was handed (reverse, clear): what a caller does
+            # with a returned value must not change what later calls report
+            for include_unary in (True, False, True, False):
                 try:
                     rel = ctx.relations(include_unary=include_unary)
                 except core.Inconclusive:
@@ -192,6 +194,11 @@ def unit_rel(args, prefix=(), max_depth=None):
                     except Exception as e:
                         named.append((z3.BoolVal(False), f'{label} of relations(include_unary={include_unary}) with '
                                                          f'{len(rel)} entries raised {type(e).__name__}: {e}'))
+                try:
+                    rel.reverse()
+                    del rel[:]
+                except (AttributeError, TypeError):
+                    pass
             out['queries'] += len(named)
             bad = gen._first_failing(cx, named)
             if bad:
